@@ -121,6 +121,21 @@ CLAIMED['C13'] = dict(
     note=NOTE_COMMON,
     technique='Lean 4 proof by induction on bit lists / look-ahead units + exhaustive small-width correspondence')
 
+CLAIMED['C16'] = dict(
+    text='Lean theorems over the helpers as symbolically executed from their Python bodies on every run (Gen.Conv): '
+         'a non-negative value with an explicit bitwidth is accepted iff it fits and returned unchanged; a negative '
+         'value is accepted iff representable in two\'s complement and returned as v mod 2^w; with no bitwidth the '
+         'width is the minimal one (it fits, one bit fewer does not); val_to_signed_integer is the two\'s-complement '
+         'reading and inverts the signed encoding of every accepted negative value. The real functions are compared '
+         'with the translated ones on ~100k argument tuples and with the property in exact arithmetic (exhaustive for '
+         'bitwidth <= 8, boundaries to 130 bits), including Const agreement, verilog-style strings in five notations, '
+         'the four format round trips, libutils two\'s-complement inverses and bit-pattern round trips. PARTIAL: string '
+         'parsing/formatting (int(), hex(), bin()) and bitpattern helpers are checked differentially only.',
+    design='4 C16',
+    note=NOTE_COMMON + 'CPython int()/hex()/bin()/str() are trusted. Known boundary (observation, not a violation): '
+         'the string form rejects "-w\'d2^(w-1)" that the int form accepts.',
+    technique='Lean 4 proof over symbolically-executed Python function bodies + exhaustive small-domain correspondence')
+
 NOT_YET = {}
 
 
